@@ -87,7 +87,7 @@ CLAIMED = {
          'with the model for every N up to 6/9; polynomial programs are compared with exact analytic derivatives (Jacobian, Jv, Hessian, Hv, all d-th order partials, d<=4) and smooth programs with Taylor propagation along arbitrary directions.')),
  'C07': dict(
    technique='Lean 4 theorems over any non-commutative ring (matrix Taylor kernels solve A*inv(A)=I and A*X=B order by order) + exact correspondence + residual / independent-formula oracles',
-   text=('Theorems for all D and all sizes (R = matrices): dot is the Cauchy product, A(t) inv(A)(t) = I and A(t) X(t) = B(t) modulo t^D from the zeroth-order contract of the NumPy leaf (also constant right-hand side); inv(A)(t) A(t) = I as well (two-sided), uniqueness of the solution modulo t^D; det A = sign * prod diag U from the LU identity in any commutative ring (the formula UTPM.det evaluates). '
+   text=('Theorems for all D and all sizes (R = matrices): dot is the Cauchy product, A(t) inv(A)(t) = I and A(t) X(t) = B(t) modulo t^D from the zeroth-order contract of the NumPy leaf (also constant right-hand side); inv(A)(t) A(t) = I as well (two-sided), uniqueness of the solution modulo t^D; det A = sign * prod diag U from the LU identity in any commutative ring (the formula UTPM.det evaluates). logdet: log det A = log(sign(P) prod sign U_ii) + sum log|U_ii| pointwise along the curve (the formula UTPM.logdet evaluates). '
          'dot (all rank combinations, constant operand either side), inv and all three solve variants are compared with the exact matrix-series model; det/logdet against the Leibniz formula in Taylor arithmetic, expm against the '
          'exponential series, outer/trace slice-wise, base matrices that require row pivoting, real/complex and mixed operand dtypes (partial: logdet as log of det, Pade approximant, rectangular right-hand sides have no theorem).')),
  'C08': dict(
